@@ -124,7 +124,7 @@ class Runner:
         self.flag = os.path.join(self.h.dir, "crashflag")
         self.ossified = None
 
-    def execute(self, uid, crash=None, fault=None, hold_trigger=False):
+    def execute(self, uid, crash=None, fault=None, hold_trigger=False, alarm=None):
         h = self.h
         h.clean_queue()
         h.clear_trace()
@@ -135,6 +135,8 @@ class Runner:
             extra["VSHIM_CRASH"] = "inj:%d" % crash
         if fault is not None:
             extra["VSHIM_FAULT"] = "inj:%s:%d:%s" % fault
+        if alarm is not None:
+            extra["VSHIM_SIGNAL"] = "inj:%d:14" % alarm      # the 24-hour timer expires just before the k-th mutating call
         env = h.env(role="inj", uid=uid, **extra)
         trig = None
         if hold_trigger:
@@ -306,8 +308,8 @@ def run_input(r, sc, stats, full=True, pick=None):
     icls = "env_" + sc["mut"]["kind"]
     key_in = vlib.digest(sc)[:12]
 
-    def one(mode, crash=None, fault=None, expect=None):
-        rc, pid, t0, t1, ev = r.execute(uid, crash=crash, fault=fault, hold_trigger=hold)
+    def one(mode, crash=None, fault=None, expect=None, alarm=None):
+        rc, pid, t0, t1, ev = r.execute(uid, crash=crash, fault=fault, hold_trigger=hold, alarm=alarm)
         v, reached, _ = judge(r, sc, msg, env, uid, uidclass, rc, pid, t0, t1, ev, mode, expect)
         if v == "INCONCLUSIVE":
             stats.inconclusive += 1
@@ -317,6 +319,8 @@ def run_input(r, sc, stats, full=True, pick=None):
             hit = any(e["call"] == "CRASH" for e in ev)
         if mode[0] == "fault":
             hit = any(e["a"] and e["a"][-1] in ("FAULT", "SHORT") for e in ev)
+        if mode[0] == "alarm":
+            hit = any(e["call"] == "SIGNAL" for e in ev)
         stats.case(scenario={"input": sc, "mode": list(mode), "exit": rc}, nontrivial=reached and hit,
                    classes=[icls, "mode_" + mode[0]] + (["exit_%s" % rc] if mode[0] == "golden" else []) +
                    (["fault_%s" % mode[1]] if mode[0] == "fault" else []),
@@ -334,6 +338,10 @@ def run_input(r, sc, stats, full=True, pick=None):
     plans = []
     for k in ks:
         plans.append(("crash", k))
+    # the injector's own death timer (alarm(86400), documented exit 52) firing before each of its mutating steps, including the ones after
+    # the message became visible (added after seeded changes C02-D / C01-D)
+    for k in ks[:-1]:
+        plans.append(("alarm", k))
     for cls, k, ev in sites:
         if cls in ("lseek", "stat", "flock", "opendir", "fork", "pipe"):
             continue
@@ -361,6 +369,8 @@ def run_input(r, sc, stats, full=True, pick=None):
     for pl in plans:
         if pl[0] == "crash":
             v, _, _ = one(("crash", pl[1]), crash=pl[1])
+        elif pl[0] == "alarm":
+            v, _, rc_a = one(("alarm", pl[1]), alarm=pl[1], expect=52)
         else:
             _, cls, k, kind, ev = pl
             exp = expected_fault_exit(cls, kind, ev) if grc == 0 else None
